@@ -5,6 +5,7 @@ from hypothesis import strategies as st
 
 from sqlparse import keywords as K, lexer, tokens as T
 
+from gen import options as O
 from gen import chars, regions as R, grammar as G
 from vlib.core import Leg, Result, exc_failure
 
@@ -28,7 +29,7 @@ DEDICATED = {
 }
 LEFT = ['', ' ', '\n', ',', '(', ')', ';', '=', '1 ', 'x ', '\t']
 RIGHT = ['', ' ', '\n', ',', '(', ')', ';', '=', ' 1', ' x', '\r\n']
-KINDS = ['sq', 'dq', 'bt', 'dol', 'ml', 'sl']
+KINDS = ['sq', 'dq', 'bt', 'br', 'dol', 'ml', 'sl']
 
 
 def expected_type(word):
@@ -49,6 +50,8 @@ def build_region(kind, body, extra):
         return R.dq_body(body), T.String.Symbol
     if kind == 'bt':
         return R.bt_body(body), T.Name
+    if kind == 'br':
+        return R.br_body(body), T.Name
     if kind == 'dol':
         return R.dollar_body(body, extra), T.Literal
     if kind == 'ml':
@@ -69,6 +72,8 @@ def check_region(case):
         right = ' ' + right          # \r + \n would be one CRLF line end
     if kind == 'sq' and right[:1] == "'":
         right = ' ' + right
+    if kind == 'br' and left[-1:] and (left[-1].isalnum() or left[-1] in '_])'):
+        left = left + ' '          # behind a word, ']' or ')' a bracket is an array index (documented lexer rule)
     text = left + lexeme + right
     res = Result(key=text)
     try:
@@ -150,7 +155,7 @@ def drawn_words(draw):
     single, multi = all_words()
     if draw(st.booleans()):
         w = draw(st.sampled_from(single))
-        mask = draw(st.integers(0, (1 << len(w)) - 1))
+        mask = draw(O.bitset(len(w)))
         w = ''.join(c.upper() if mask >> i & 1 else c.lower() for i, c in enumerate(w))
     else:
         w = draw(G.drawn_name)
